@@ -70,6 +70,7 @@ const rule = "programs: seeded include trees of profile incl (depth <= 3, 1-3 in
 
 type obsLine struct {
 	Origin, Task, PWD, FV, IV, DV string
+	AV                            []string
 	raw                           string
 	used                          bool
 }
@@ -96,11 +97,30 @@ func parseLines(stdout string) []*obsLine {
 				o.IV = v
 			case "DV":
 				o.DV = v
+			case "AV":
+				if v = strings.TrimSuffix(strings.TrimPrefix(v, "["), "]"); v != "" {
+					o.AV = strings.Split(v, ",")
+				}
 			}
 		}
 		out = append(out, o)
 	}
 	return out
+}
+
+// avWrong reports an outer include variable that carries the value of ANOTHER include statement (an empty
+// value is not judged: whether the variables of an outer include statement reach tasks included further
+// down is not documented).
+func avWrong(e Line, o *obsLine) (int, bool) {
+	for k, want := range e.AV {
+		if want == "*" || k >= len(o.AV) {
+			continue
+		}
+		if got := o.AV[k]; got != "" && got != want {
+			return k, true
+		}
+	}
+	return 0, false
 }
 
 func lineTags(e Line) string {
@@ -122,7 +142,7 @@ func match(exp []Line, obs []*obsLine) []Finding {
 	// exact matches first
 	for _, e := range exp {
 		o := find(func(o *obsLine) bool {
-			return o.Origin == e.Origin && o.Task == e.Task && (e.PWD == "*" || o.PWD == e.PWD) && o.FV == e.FV && (e.IV == "*" || o.IV == e.IV) && (e.DV == "*" || o.DV == e.DV)
+			return o.Origin == e.Origin && o.Task == e.Task && (e.PWD == "*" || o.PWD == e.PWD) && o.FV == e.FV && (e.IV == "*" || o.IV == e.IV) && (e.DV == "*" || o.DV == e.DV) && func() bool { _, w := avWrong(e, o); return !w }()
 		})
 		if o != nil {
 			o.used = true
@@ -138,6 +158,9 @@ func match(exp []Line, obs []*obsLine) []Finding {
 				out = append(out, Finding{fmt.Sprintf("C08 | run.pwd | depth=%d flatten=%v", e.Depth, e.Flat), fmt.Sprintf("task %s (%s) ran in %s, expected %s", e.Task, e.Origin, o.PWD, e.PWD)})
 			case o.FV != e.FV:
 				out = append(out, Finding{fmt.Sprintf("C08 | run.file-var | depth=%d", e.Depth), fmt.Sprintf("task %s (%s) saw FV=%q, expected %q", e.Task, e.Origin, o.FV, e.FV)})
+			case func() bool { _, w := avWrong(e, o); return w }() && (e.IV == "*" || o.IV == e.IV) && (e.DV == "*" || o.DV == e.DV):
+				k, _ := avWrong(e, o)
+				out = append(out, Finding{fmt.Sprintf("C08 | run.outer-include-var | depth=%d flatten=%v", e.Depth, e.Flat), fmt.Sprintf("task %s (%s) saw %q for the variable of an include statement further out, which is the value of another include statement; its own chain gives %q", e.Task, e.Origin, o.AV[k], e.AV[k])})
 			case e.IV == "*" || o.IV == e.IV:
 				out = append(out, Finding{fmt.Sprintf("C08 | run.file-sh-var | depth=%d", e.Depth), fmt.Sprintf("task %s (%s) saw its file's dynamic variable DV=%q (sh: pwd), expected the directory of its own include %q", e.Task, e.Origin, o.DV, e.DV)})
 			default:
@@ -528,6 +551,11 @@ func runTree(part *h.Partial, bin, worker, scratch string, t *Tree, maxNames int
 			}
 			if l.DV != "*" {
 				part.Count("file_sh_var_judged", 1)
+			}
+			for _, v := range l.AV {
+				if v != "*" {
+					part.Count("outer_include_var_judged", 1)
+				}
 			}
 		}
 		var expS, obsS []string
